@@ -629,6 +629,10 @@ func checkStorageRound(
 				allowed, category = []string{prev}, "failed"
 			case lst == lstL1 && idxEntryFault && len(plan) == 1:
 				allowed, category = []string{offered}, "valid-entry"
+			case lst == lstL2 && idxKind == kDupBad && len(plan) == 1:
+				// An unusable entry next to a VALID entry for the same list:
+				// the valid entry of a partially invalid index is applied.
+				allowed, category = []string{offered}, "valid-entry"
 			default:
 				allowed = []string{prev, offered}
 			}
